@@ -706,11 +706,11 @@ def run(ctx):
 
     # ============================================================== K2 filter::apply on chosen sources
     if quick:
-        alphas = sorted(set([0, 1, 2, 127, 128, 254, 255] + [rng.below(256) for _ in range(5)]))
+        alphas = sorted(set([0, 1, 128, 254, 255] + [rng.below(256) for _ in range(3)]))
     else:
         # the leaf kernels are compared on all 65 536 pairs above; the composed pipelines on 72 alpha rows x 256 colours
         alphas = sorted(set(list(range(0, 256, 4)) + [1, 2, 3, 127, 129, 253, 254, 255]))
-    acases = gen_pair_cases(rng, alphas) + gen_apply_cases(rng, 36 if quick else 240)
+    acases = gen_pair_cases(rng, alphas) + gen_apply_cases(rng, 30 if quick else 240)
     aouts = ctx.rvh_batch(binp, 'c16-apply', ["-\t%s\t1,0,0,1,0,0\t%s\t%s" % (c['doc'], c['src'], c['out']) for c in acases]) if model_ok else []
     groups = {}
     for i, (c, o) in enumerate(zip(acases, aouts)):
